@@ -192,7 +192,10 @@ def stepOpt (s : St) : Op → Option St
   | .setVar x r => (evalRV s r).map (s.setVar x)
   | .setProp x p r =>
     match evalRV s r, s.varObj? x with
-    | some t, some h => some (s.setProp h p t)
+    | some t, some h =>
+      (match s.propVal? h p with
+       | some _ => some (s.setProp h p t)
+       | none => none)
     | _, _ => none
   | .setIdx b k r =>
     match evalRV s r with
